@@ -86,6 +86,8 @@ pub struct Shared {
 	/// Some(text): the next WebSocket ping the client writes fails with this text
 	pub ping_fail: Mutex<Option<String>>,
 	pub pings: Mutex<u32>,
+	/// every ordinary write takes this long on the (paused) clock: a transport with a finite rate
+	pub send_cost_ms: Mutex<u64>,
 }
 
 pub struct MockSender {
@@ -108,6 +110,10 @@ impl TransportSenderT for MockSender {
 				SendPlan::Ok(n) => {
 					for _ in 0..n {
 						tokio::task::yield_now().await;
+					}
+					let cost = *shared.send_cost_ms.lock();
+					if cost > 0 {
+						tokio::time::sleep(std::time::Duration::from_millis(cost)).await;
 					}
 					shared.wire.lock().push(msg);
 					Ok(())
@@ -240,6 +246,7 @@ impl MockClient {
 			events: Mutex::new(vec![]),
 			ping_fail: Mutex::new(None),
 			pings: Mutex::new(0),
+			send_cost_ms: Mutex::new(0),
 		});
 		let (tx, rx) = mpsc::unbounded_channel();
 		let sender = MockSender { shared: shared.clone() };
